@@ -313,6 +313,12 @@ theorem failover_reply_id (servers : List FoOutcome) (m : FoMsg) (rd : Bool) :
   · rfl
   · exact failoverLoop_id m servers none (by simp)
 
+/-- **The forwarder answers under the client's transaction**, whatever its
+upstreams (UDP, DoT, DoH) do and in whatever order they fail. -/
+theorem forwarder_reply_id (servers : List FoOutcome) (reqId : Nat) :
+    (forwardWrite servers reqId).id = reqId :=
+  failoverLoop_id _ servers none (by simp)
+
 /-- when every answering fallback fails too, the client gets the FIRST retained
 failure (under its own id), not the primary's -/
 theorem failover_all_fail (m : FoMsg) (eid mk : Nat) (rest : List FoOutcome)
@@ -487,6 +493,9 @@ example : (((({} : Carrier).tryPin 5 105).1.reset 1).pinned 5) = none ∧ ((({} 
 -- retained replies: the first reply (id 7) is still id 7 after two more requests were served
 example : retainMany [] [(7, true), (8, false), (9, true)] =
     [some { addr := 0, id := 7, body := 7 }, none, some { addr := 2, id := 9, body := 9 }] := by decide
+
+-- forwarder: a failed DoH leg, then a UDP upstream that answers: the answer leaves under id 4242
+example : forwardWrite [.err, .resp 0 0 11] 4242 = { id := 4242, rcode := 0, mark := 11 } := by decide
 
 -- failover: dead server, two SERVFAILs: the first retained failure leaves, under the client's id 77
 example : failoverWrite [.err, .resp 9001 2 5, .resp 9002 2 6] { id := 77, rcode := 2, mark := 0 } true =
